@@ -726,6 +726,56 @@ Proof.
   apply join_app; intros H; apply map_eq_nil in H; revert H; apply split_slash_nonempty.
 Qed.
 
+(* ---- path.Join on clean operands is plain concatenation ------------------------------------- *)
+Definition plain_join (base rel : bytes) : bytes :=
+  match rel with [] => base | _ => base ++ [47] ++ rel end.
+Definition seg_ok (p : bytes) : bool := negb (is_nil p) && no_slash p.
+
+Lemma segments_app_slash : forall a b, segments (a ++ [47] ++ b) = segments a ++ segments b.
+Proof. intros a b. unfold segments. cbn [app]. now rewrite split_slash_app_slash, filter_app. Qed.
+
+Lemma segments_join : forall parts, parts <> [] -> Forall (fun p => seg_ok p = true) parts ->
+  segments (join [47] parts) = parts.
+Proof.
+  intros parts Hne HF. unfold segments. rewrite split_join.
+  - induction HF as [|p l Hp _ IH]; [reflexivity|]. cbn [filter].
+    unfold seg_ok in Hp. apply andb_true_iff in Hp. destruct Hp as [Hp _]. rewrite Hp.
+    f_equal. destruct l as [|q l']; [reflexivity|]. apply IH. discriminate.
+  - assumption.
+  - eapply Forall_impl; [|exact HF]. intros p Hp. unfold seg_ok in Hp.
+    apply andb_true_iff in Hp. exact (proj2 Hp).
+Qed.
+
+Lemma join_nonempty : forall parts, parts <> [] -> Forall (fun p => seg_ok p = true) parts ->
+  join [47] parts <> [].
+Proof.
+  intros [|p l] Hne HF; [congruence|]. inversion HF as [|? ? Hp _]; subst.
+  unfold seg_ok in Hp. apply andb_true_iff in Hp. destruct Hp as [Hp _].
+  destruct p as [|c p]; [discriminate|]. destruct l; cbn; discriminate.
+Qed.
+
+Lemma path_join_plain : forall base parts,
+  clean_path base = base -> base <> [47] -> Forall (fun p => seg_ok p = true) parts ->
+  path_join base (join [47] parts) = plain_join base (join [47] parts).
+Proof.
+  intros base parts Hc Hr HF. destruct parts as [|p l].
+  - cbn [join]. unfold path_join, plain_join. exact Hc.
+  - pose proof (join_nonempty (p :: l) ltac:(discriminate) HF) as Hne.
+    unfold path_join, plain_join. destruct (join [47] (p :: l)) as [|c r] eqn:Ej; [congruence|].
+    rewrite <- Ej. unfold clean_path. rewrite segments_app_slash, (segments_join (p :: l)) by (discriminate || assumption).
+    assert (Hs : segments base <> []).
+    { intros E. unfold clean_path in Hc. rewrite E in Hc. cbn in Hc. congruence. }
+    rewrite join_app by (assumption || discriminate).
+    rewrite app_assoc. fold (clean_path base). now rewrite Hc.
+Qed.
+
+Lemma key_path_seg_ok : forall ks, Forall (fun u => no_slash (uf_name u) = true) ks ->
+  Forall (fun p => seg_ok p = true) (key_path ks).
+Proof.
+  intros ks H. unfold key_path. apply Forall_map. eapply Forall_impl; [|exact H].
+  intros u Hu. unfold seg_ok. cbn [app is_nil negb andb no_slash forallb]. exact Hu.
+Qed.
+
 Definition brace (u : ufield) : bytes := [123] ++ to_snake (uf_name u) ++ [125].
 
 Lemma http_rule_path_keys : forall ks tail,
@@ -748,6 +798,12 @@ Definition query_paths (e : entity) : list bytes :=
     http_rule_path (path_join (query_base e) (join [47] (key_path (list_keys e))));
     http_rule_path (path_join (query_base e) (join [47] (key_path (get_keys e) ++ [bs "events"]))) ].
 
+Lemma query_base_not_root : forall e, query_base e <> [47].
+Proof.
+  intros e H. unfold query_base in H. cbn [app] in H. inversion H as [H1].
+  apply app_eq_nil in H1. destruct H1 as [_ H1]. discriminate.
+Qed.
+
 Theorem query_service_methods : forall e,
   exists s, In (CSvc 1 s) (query_components e)
     /\ sv_name s = query_prefix e ++ bs "QueryService" /\ sv_ann s = SQuery (snake_name e)
@@ -764,6 +820,7 @@ Qed.
 (* Get = <base>/{k1}/.../{kn}, Events = <base>/{k1}/.../{kn}/events, the keys being the
    primary and shard keys in declaration order *)
 Theorem get_events_paths : forall e,
+  clean_path (query_base e) = query_base e ->
   Forall (fun k => no_slash (uf_name (k_def k)) = true) (e_keys e) ->
   nth 0 (query_paths e) [] =
     match get_keys e with
@@ -773,18 +830,22 @@ Theorem get_events_paths : forall e,
   /\ nth 2 (query_paths e) [] =
        http_rule_path (query_base e) ++ [47] ++ join [47] (map brace (get_keys e) ++ [bs "events"]).
 Proof.
-  intros e Hk. unfold query_paths. cbn [nth].
+  intros e Hc Hk. unfold query_paths. cbn [nth].
   assert (Hg : Forall (fun u => no_slash (uf_name u) = true) (get_keys e)).
   { unfold get_keys. apply Forall_map. apply Forall_forall. intros k Hin.
     apply filter_In in Hin. destruct Hin as [Hin _]. rewrite Forall_forall in Hk. now apply Hk. }
+  pose proof (query_base_not_root e) as Hr.
   split.
-  - destruct (get_keys e) as [|u ks] eqn:E; [reflexivity|].
-    unfold path_join. destruct (join [47] (key_path (u :: ks))) eqn:Ej.
+  - rewrite path_join_plain by (assumption || now apply key_path_seg_ok).
+    destruct (get_keys e) as [|u ks] eqn:E; [reflexivity|].
+    unfold plain_join. destruct (join [47] (key_path (u :: ks))) eqn:Ej.
     + exfalso. cbn [key_path map] in Ej. destruct (map _ ks); cbn in Ej; discriminate.
     + rewrite <- Ej. rewrite http_rule_path_app. f_equal. f_equal.
       pose proof (http_rule_path_keys (u :: ks) [] Hg (Forall_nil _)) as H.
       rewrite !app_nil_r in H. apply H. discriminate.
-  - unfold path_join. destruct (join [47] (key_path (get_keys e) ++ [bs "events"])) eqn:Ej.
+  - rewrite path_join_plain; [|assumption|assumption|].
+    2:{ apply Forall_app. split; [now apply key_path_seg_ok|repeat constructor]. }
+    unfold plain_join. destruct (join [47] (key_path (get_keys e) ++ [bs "events"])) eqn:Ej.
     + exfalso. destruct (key_path (get_keys e)) as [|a [|b l]]; cbn in Ej; try discriminate;
         apply app_eq_nil in Ej; destruct Ej; discriminate.
     + rewrite <- Ej. rewrite http_rule_path_app. f_equal. f_equal.
@@ -966,12 +1027,16 @@ Proof.
 Qed.
 
 Lemma params_ok_keys : forall base ks tail extra,
+  clean_path base = base -> base <> [47] ->
   path_params base = [] ->
   Forall (fun u => no_slash (uf_name u) = true) ks ->
   tail = [] \/ tail = [bs "events"] ->
   params_ok (map uf_name ks ++ extra) (path_join base (join [47] (key_path ks ++ tail))) = true.
 Proof.
-  intros base ks tail extra Hb Hk Ht. unfold params_ok, path_join.
+  intros base ks tail extra Hc Hr Hb Hk Ht.
+  assert (Hparts : Forall (fun p => seg_ok p = true) (key_path ks ++ tail)).
+  { apply Forall_app. split; [now apply key_path_seg_ok|destruct Ht as [->| ->]; repeat constructor]. }
+  rewrite path_join_plain by assumption. unfold params_ok, plain_join.
   destruct (join [47] (key_path ks ++ tail)) as [|c l] eqn:Ej; [now rewrite Hb|].
   rewrite <- Ej. change (base ++ 47 :: join [47] (key_path ks ++ tail))
     with (base ++ [47] ++ join [47] (key_path ks ++ tail)).
@@ -987,20 +1052,22 @@ Proof.
 Qed.
 
 Theorem query_params_always_ok : forall e,
+  clean_path (query_base e) = query_base e ->
   path_params (query_base e) = [] ->
   Forall (fun k => no_slash (uf_name (k_def k)) = true) (e_keys e) ->
   query_params_ok e = true.
 Proof.
-  intros e Hb Hk. unfold query_params_ok. fold (query_base e).
+  intros e Hc Hb Hk. unfold query_params_ok. fold (query_base e).
+  pose proof (query_base_not_root e) as Hr.
   assert (Hg : Forall (fun u => no_slash (uf_name u) = true) (get_keys e)).
   { unfold get_keys. apply Forall_map. apply Forall_forall. intros k Hin.
     apply filter_In in Hin. destruct Hin as [Hin _]. rewrite Forall_forall in Hk. now apply Hk. }
   assert (Hl : Forall (fun u => no_slash (uf_name u) = true) (list_keys e)).
   { unfold list_keys. apply Forall_map. apply Forall_forall. intros k Hin.
     apply filter_In in Hin. destruct Hin as [Hin _]. rewrite Forall_forall in Hk. now apply Hk. }
-  pose proof (params_ok_keys (query_base e) (get_keys e) [] [] Hb Hg (or_introl eq_refl)) as H1.
-  pose proof (params_ok_keys (query_base e) (list_keys e) [] [bs "page"; bs "query"] Hb Hl (or_introl eq_refl)) as H2.
-  pose proof (params_ok_keys (query_base e) (get_keys e) [bs "events"] [bs "page"; bs "query"] Hb Hg (or_intror eq_refl)) as H3.
+  pose proof (params_ok_keys (query_base e) (get_keys e) [] [] Hc Hr Hb Hg (or_introl eq_refl)) as H1.
+  pose proof (params_ok_keys (query_base e) (list_keys e) [] [bs "page"; bs "query"] Hc Hr Hb Hl (or_introl eq_refl)) as H2.
+  pose proof (params_ok_keys (query_base e) (get_keys e) [bs "events"] [bs "page"; bs "query"] Hc Hr Hb Hg (or_intror eq_refl)) as H3.
   rewrite !app_nil_r in H1. rewrite !app_nil_r in H2. rewrite H1, H2, H3. reflexivity.
 Qed.
 
@@ -1155,17 +1222,18 @@ Proof. induction ks as [|u ks IH]; [reflexivity|]. cbn [flat_map map]. now rewri
    over the primary and shard keys in declaration order, all of them request fields *)
 Theorem default_paths : forall e,
   e_base_url e = [] -> ident (e_name e) = true -> no_colon (e_pkg e) = true ->
+  clean_path (query_base e) = query_base e ->
   Forall (fun k => ident (uf_name (k_def k)) = true) (e_keys e) ->
   nth 0 (query_paths e) [] = query_base e ++ flat_map (fun u => 47 :: brace u) (get_keys e)
   /\ nth 2 (query_paths e) [] =
        query_base e ++ flat_map (fun u => 47 :: brace u) (get_keys e) ++ bs "/events"
   /\ query_params_ok e = true.
 Proof.
-  intros e Hb Hi Hp Hk.
+  intros e Hb Hi Hp Hc Hk.
   destruct (default_query_base e Hb Hi Hp) as [B1 B2].
   assert (Hk' : Forall (fun k => no_slash (uf_name (k_def k)) = true) (e_keys e)).
   { eapply Forall_impl; [|exact Hk]. intros k H. exact (proj2 (ident_no_colon_slash _ H)). }
-  destruct (get_events_paths e Hk') as [P0 P2]. rewrite P0, P2, B1.
+  destruct (get_events_paths e Hc Hk') as [P0 P2]. rewrite P0, P2, B1.
   split; [|split; [|now apply query_params_always_ok]].
   - destruct (get_keys e) as [|u ks]; [now rewrite app_nil_r|].
     rewrite flat_map_brace, <- slash_join by discriminate. reflexivity.
@@ -1225,13 +1293,20 @@ Qed.
 (* the List path carries exactly the shard keys *)
 Theorem list_path : forall e,
   e_base_url e = [] -> ident (e_name e) = true -> no_colon (e_pkg e) = true ->
+  clean_path (query_base e) = query_base e ->
   Forall (fun k => ident (uf_name (k_def k)) = true) (e_keys e) ->
   nth 1 (query_paths e) [] = query_base e ++ flat_map (fun u => 47 :: brace u) (list_keys e)
   /\ list_keys e = map k_def (filter (fun k => is_key_field (k_def k) && k_shard k) (e_keys e)).
 Proof.
-  intros e Hb Hi Hp Hk. split; [|reflexivity].
+  intros e Hb Hi Hp Hc Hk. split; [|reflexivity].
   destruct (default_query_base e Hb Hi Hp) as [B1 B2].
-  unfold query_paths. cbn [nth]. unfold path_join.
+  assert (Hl : Forall (fun x => no_slash (uf_name x) = true) (list_keys e)).
+  { unfold list_keys. apply Forall_map. apply Forall_forall. intros k Hin.
+    apply filter_In in Hin. destruct Hin as [Hin _]. rewrite Forall_forall in Hk.
+    exact (proj2 (ident_no_colon_slash _ (Hk k Hin))). }
+  unfold query_paths. cbn [nth].
+  rewrite path_join_plain by (assumption || apply query_base_not_root || now apply key_path_seg_ok).
+  unfold plain_join.
   destruct (list_keys e) as [|u ks] eqn:El.
   { cbn [key_path map join flat_map]. rewrite app_nil_r. exact B1. }
   destruct (join [47] (key_path (u :: ks))) as [|c l] eqn:Ej.
@@ -1240,10 +1315,6 @@ Proof.
     change (query_base e ++ 47 :: join [47] (key_path (u :: ks)))
       with (query_base e ++ [47] ++ join [47] (key_path (u :: ks))).
     rewrite http_rule_path_app, B1. f_equal.
-    assert (Hl : Forall (fun x => no_slash (uf_name x) = true) (u :: ks)).
-    { rewrite <- El. unfold list_keys. apply Forall_map. apply Forall_forall. intros k Hin.
-      apply filter_In in Hin. destruct Hin as [Hin _]. rewrite Forall_forall in Hk.
-      exact (proj2 (ident_no_colon_slash _ (Hk k Hin))). }
     pose proof (http_rule_path_keys (u :: ks) [] Hl (Forall_nil _)) as H.
     rewrite !app_nil_r in H. rewrite H by discriminate.
     rewrite flat_map_brace, <- slash_join by discriminate. reflexivity.
